@@ -597,6 +597,38 @@ theorem crash_equiv_tasks {cfg : Cfg} {G : Block} (E : StaticOK cfg.st G) (hG : 
   Lemmas.Deepen4.crash_equiv_tasks E hG hb hl evs x0 k0 hJ hR hg1 hg2 hidle hq
 
 open MW.Lemmas.Deepen3 MW.Lemmas.Deepen4 in
+/-- **crash_equiv_tasks_quiet** (round 4) — the same at ANY quiet point, also inside a task window the history has not
+    closed: whenever the run that never stops has nothing queued and in BOTH runs no task is pending (`IdleAt`: the
+    wallet of the open window is finished according to the STORE — status ready resp. status entry gone), the crashing
+    run has nothing queued either and the two agree on everything confirmed.  That the crashing run is finished when
+    the other one is cannot be concluded from the history alone: at the same event index the two may be at different
+    points of the rescan (`MW.Lemmas.Deepen4.exEvsT`: events 14 vs 18), which is why it is asked of both. -/
+theorem crash_equiv_tasks_quiet {cfg : Cfg} {G : Block} (E : StaticOK cfg.st G) (hG : G.txs = []) (hb : cfg.batch > 0)
+    (hl : cfg.limit > 0) (evs : List EvT) (x0 : SysQ) (k0 : SkelT) (hJ : JT cfg G x0 k0) (hR : RunOKT cfg G k0 evs)
+    (hg1 : GuardT cfg true x0 evs) (hg2 : GuardT cfg false x0 evs)
+    (hidle1 : IdleAt (runT cfg true x0 evs) (skRunT cfg k0 evs).busy)
+    (hidle2 : IdleAt (runT cfg false x0 evs) (skRunT cfg k0 evs).busy)
+    (hq : (runT cfg false x0 evs).queue = []) :
+    (runT cfg true x0 evs).queue = [] ∧
+    (runT cfg true x0 evs).chain = (runT cfg false x0 evs).chain ∧
+    (runT cfg true x0 evs).P.ks = (runT cfg false x0 evs).P.ks ∧
+    (runT cfg true x0 evs).V.keys = (runT cfg false x0 evs).V.keys ∧
+    AMap.Equiv (runT cfg true x0 evs).P.led.credits (runT cfg false x0 evs).P.led.credits ∧
+    AMap.Equiv (runT cfg true x0 evs).P.led.unspent (runT cfg false x0 evs).P.led.unspent ∧
+    AMap.Equiv (runT cfg true x0 evs).P.led.debits (runT cfg false x0 evs).P.led.debits ∧
+    AMap.Equiv (runT cfg true x0 evs).P.led.game (runT cfg false x0 evs).P.led.game ∧
+    AMap.Equiv (runT cfg true x0 evs).P.led.txrecs (runT cfg false x0 evs).P.led.txrecs ∧
+    AMap.Equiv (runT cfg true x0 evs).P.led.blocks (runT cfg false x0 evs).P.led.blocks ∧
+    AMap.Equiv (runT cfg true x0 evs).P.led.sync (runT cfg false x0 evs).P.led.sync ∧
+    (runT cfg true x0 evs).P.led.syncedTo = (runT cfg false x0 evs).P.led.syncedTo ∧
+    (runT cfg true x0 evs).V.led.best = (runT cfg false x0 evs).V.led.best ∧
+    (∀ w ∈ walletsOf (runT cfg false x0 evs).P.ks,
+      AMap.get (runT cfg true x0 evs).P.led.balance w = AMap.get (runT cfg false x0 evs).P.led.balance w ∧
+      Lemmas.Deepen3.readyB (runT cfg true x0 evs).P.led w = true ∧
+      Lemmas.Deepen3.readyB (runT cfg false x0 evs).P.led w = true) :=
+  Lemmas.Deepen4.crash_equiv_tasks_quiet E hG hb hl evs x0 k0 hJ hR hg1 hg2 hidle1 hidle2 hq
+
+open MW.Lemmas.Deepen3 MW.Lemmas.Deepen4 in
 /-- a history of round-3 events is a history of this world: `crash_equiv` is the task-free instance -/
 theorem crash_equiv_tasks_conservative (cfg : Cfg) (cr : Bool) (evs : List EvQ) (x : SysQ) :
     runT cfg cr x (evs.map EvT.q) = runQ cfg.st cfg.n cr x evs := runT_q cfg cr evs x
@@ -705,6 +737,11 @@ example (cr : Bool) : Lemmas.Deepen4.GuardT Lemmas.Deepen4.exCfg cr Lemmas.Deepe
 example : (Lemmas.Deepen4.skRunT Lemmas.Deepen4.exCfg Lemmas.Deepen4.exK0T Lemmas.Deepen4.exEvsT).busy = none ∧
     (Lemmas.Deepen4.runT Lemmas.Deepen4.exCfg false Lemmas.Deepen3.exX0 Lemmas.Deepen4.exEvsT).queue = [] :=
   ⟨by rw [Lemmas.Deepen4.exSkelT], Lemmas.Deepen4.exQuietTT⟩
+/-- … `crash_equiv_tasks_quiet` inside the OPEN import window (17 events, then one more batch: both runs finished, the
+    skeleton still busy) -/
+example : (Lemmas.Deepen4.skRunT Lemmas.Deepen4.exCfg Lemmas.Deepen4.exK0T Lemmas.Deepen4.exEvsW).busy = some (.imp "w3") ∧
+    (Lemmas.Deepen4.runT Lemmas.Deepen4.exCfg true Lemmas.Deepen3.exX0 Lemmas.Deepen4.exEvsW).queue = [] :=
+  ⟨by rfl, Lemmas.Deepen4.exEquivW.1⟩
 /-- … and the crash at event 13 is taken at a non-quiet point inside the import window (the two runs differ there:
     the crashing run has reorganised onto e2 inside Start, kept the rescan's cursor and has the rescan queued again);
     at the end w2 and w3 are the only wallets, w3 ready with the coin the rescan picked up -/
